@@ -270,6 +270,64 @@ func cmdRun(args []string) int {
 		exit = 1
 	}
 
+	// C15, "across processes": the first scenarios are executed again in two
+	// further OS processes (GOMAXPROCS 1 and 16) and the complete outcomes compared
+	xprocN, xprocDiff := 0, 0
+	if prop == "C15" && exit == 0 {
+		n := 3000
+		if *tier == "thorough" {
+			n = 40000
+		}
+		if n > cfg.Count {
+			n = cfg.Count
+		}
+		var maps [2]map[string]string
+		for i, mp := range []string{"1", "16"} {
+			out := filepath.Join(ws.Dir, "xproc-"+mp+".json")
+			cmd := exec.Command(ws.Exec, "run", "--prop", prop, "--tier", *tier, "--seed", fmt.Sprint(seed), "--worker", "0", "--workers", "1",
+				"--count", fmt.Sprint(n), "--out", os.DevNull, "--hashes", out, "--replays", filepath.Join(ws.Dir, "xr"))
+			cmd.Env = append(os.Environ(), "GOMAXPROCS="+mp)
+			if o, err := cmd.CombinedOutput(); err != nil {
+				fmt.Fprintf(os.Stderr, "simcheck: cross-process leg trouble: %v %s\n", err, clipStr(string(o), 800))
+				return 2
+			}
+			b, err := ioutil.ReadFile(out)
+			if err != nil || json.Unmarshal(b, &maps[i]) != nil {
+				fmt.Fprintln(os.Stderr, "simcheck: cross-process leg wrote no hashes")
+				return 2
+			}
+		}
+		xprocN = len(maps[0])
+		var idxs []int
+		for k, h := range maps[0] {
+			if maps[1][k] != h {
+				xprocDiff++
+				if n, err := strconv.Atoi(k); err == nil {
+					idxs = append(idxs, n)
+				}
+			}
+		}
+		sort.Ints(idxs)
+		for _, i := range idxs {
+			rp := filepath.Join(replayDir, fmt.Sprintf("C15-xproc-s%d-i%d.json", seed, i))
+			g := exec.Command(ws.Exec, "gen", "--prop", prop, "--tier", *tier, "--seed", fmt.Sprint(seed), "--index", fmt.Sprint(i), "--as-replay", "c15:cross-process", "-o", rp)
+			if o, err := g.CombinedOutput(); err != nil {
+				fmt.Fprintf(os.Stderr, "simcheck: cannot materialise scenario %d: %v %s\n", i, err, o)
+				return 2
+			}
+			if same, d := obsTwice(ws, rp); !same {
+				fmt.Printf("violation class=c15:cross-process seed=%d index=%d\n%s\n", seed, i, clipStr(d, 1500))
+				fmt.Printf("VIOLATION property=C15 replay=%s\n", rp)
+				exit = 1
+				unlisted = append(unlisted, violationRec{Class: "c15:cross-process", Replay: rp, Seed: seed, Index: i})
+				break
+			}
+			os.Remove(rp)
+		}
+		merged.Stats["probe.cross-process-scenarios"] = xprocN
+		merged.Stats["probe.cross-process-hash-differences"] = xprocDiff
+	}
+
 	wall := time.Since(t0).Seconds()
 	if !*noEvidence {
 		if err := writeEvidence(prop, *tier, seed, cfg, ws, merged, knownHits, len(unlisted), wall); err != nil {
@@ -316,6 +374,32 @@ func replayFresh(ws *Workspace, path string, quiet bool) (int, string) {
 	return 2, err.Error()
 }
 
+// obsTwice runs the scenario of a replay file in two fresh OS processes and
+// compares everything observable.
+func obsTwice(ws *Workspace, path string) (bool, string) {
+	var outs [2]string
+	for i, mp := range []string{"1", "16"} {
+		cmd := exec.Command(ws.Exec, "obs", path)
+		cmd.Env = append(os.Environ(), "GOMAXPROCS="+mp)
+		o, _ := cmd.Output()
+		outs[i] = string(o)
+	}
+	if outs[0] == outs[1] {
+		return true, ""
+	}
+	a, b := strings.Split(outs[0], "\n"), strings.Split(outs[1], "\n")
+	for i := range a {
+		if i >= len(b) || a[i] != b[i] {
+			bb := ""
+			if i < len(b) {
+				bb = b[i]
+			}
+			return false, fmt.Sprintf("two OS processes, same scenario, same schedule:\n  process A: %s\n  process B: %s", clipStr(a[i], 600), clipStr(bb, 600))
+		}
+	}
+	return false, "outputs differ in length"
+}
+
 func cmdReplay(args []string) int {
 	if len(args) < 1 {
 		usage()
@@ -325,6 +409,16 @@ func cmdReplay(args []string) int {
 	if err != nil {
 		fmt.Fprintln(os.Stderr, "simcheck:", err)
 		return 2
+	}
+	if b, err := ioutil.ReadFile(args[0]); err == nil && strings.Contains(string(b), "\"class\": \"c15:cross-process\"") {
+		same, d := obsTwice(ws, args[0])
+		if same {
+			fmt.Println("REPLAY-OK property=C15 recorded_class=c15:cross-process (both processes agree on this tree)")
+			return 0
+		}
+		fmt.Println(d)
+		fmt.Printf("VIOLATION property=C15 replay=%s\n", args[0])
+		return 1
 	}
 	code, out := replayFresh(ws, args[0], false)
 	fmt.Print(out)
